@@ -31,8 +31,9 @@ NoSep == ""
 
 VARIABLES l,        \* next event
           opq,      \* macros whose definition the projection could not read
+          seen,     \* macros defined at some time in this execution
           ncmp, nskip
-tvars == <<defs, pushStack, out, l, opq, ncmp, nskip>>
+tvars == <<defs, pushStack, out, l, opq, seen, ncmp, nskip>>
 
 IsE(i, e) == i <= N /\ Tr[i].e = e
 ToSet(q) == {q[i] : i \in 1..Len(q)}
@@ -40,12 +41,12 @@ RECURSIVE JoinS(_)
 JoinS(args) == IF args = <<>> THEN <<>> ELSE IF Len(args) = 1 THEN args[1]
                ELSE args[1] \o <<",">> \o JoinS(Tail(args))
 
-TInit == MInit(<<>>) /\ l = 2 /\ opq = {} /\ ncmp = 0 /\ nskip = 0
+TInit == MInit(<<>>) /\ l = 2 /\ opq = {} /\ seen = {} /\ ncmp = 0 /\ nskip = 0
 
-Keep == UNCHANGED <<opq, ncmp, nskip>>
+Keep == UNCHANGED <<opq, seen, ncmp, nskip>>
 
 TReset == /\ IsE(l, "Reset")
-          /\ defs' = <<>> /\ pushStack' = <<>> /\ out' = <<>> /\ opq' = {}
+          /\ defs' = <<>> /\ pushStack' = <<>> /\ out' = <<>> /\ opq' = {} /\ seen' = {}
           /\ l' = l + 1 /\ UNCHANGED <<ncmp, nskip>>
 
 \* the projection drops the per-line history now and then (it only grows)
@@ -53,14 +54,14 @@ TTrim == /\ IsE(l, "Trim") /\ out' = <<>> /\ l' = l + 1 /\ UNCHANGED <<defs, pus
 
 TDefine == /\ IsE(l, "Define") /\ Tr[l].ok
            /\ Define(Tr[l].m, Tr[l].fn, Tr[l].params, Tr[l].va, Tr[l].body)
-           /\ opq' = opq \ {Tr[l].m} /\ l' = l + 1 /\ UNCHANGED <<ncmp, nskip>>
+           /\ opq' = opq \ {Tr[l].m} /\ seen' = seen \cup {Tr[l].m} /\ l' = l + 1 /\ UNCHANGED <<ncmp, nskip>>
 
 TDefineOpaque == /\ IsE(l, "Define") /\ ~Tr[l].ok
                  /\ Undef(Tr[l].m)
-                 /\ opq' = opq \cup {Tr[l].m} /\ l' = l + 1 /\ UNCHANGED <<ncmp, nskip>>
+                 /\ opq' = opq \cup {Tr[l].m} /\ l' = l + 1 /\ UNCHANGED <<seen, ncmp, nskip>>
 
 TUndef == /\ IsE(l, "Undef") /\ Undef(Tr[l].m)
-          /\ opq' = opq \ {Tr[l].m} /\ l' = l + 1 /\ UNCHANGED <<ncmp, nskip>>
+          /\ opq' = opq \ {Tr[l].m} /\ l' = l + 1 /\ UNCHANGED <<seen, ncmp, nskip>>
 
 \* push / pop of an unreadable definition: the spec cannot follow the stack of that name
 TPush == /\ IsE(l, "Push") /\ PushMacro(Tr[l].m) /\ l' = l + 1 /\ Keep
@@ -72,16 +73,23 @@ ObjOf(S) == {n \in S \cap DOMAIN defs : ~defs[n].fn}
 Ref(e)  == Expand(defs, HsAdd(ObjOf(ToSet(e.ign) \ {e.m}), Toks(Call(e))), <<>>)
 Impl(e) == Expand(defs, HsAdd(ObjOf(ToSet(e.ign) \cup {e.m}), Toks(e.result)), <<>>)
 Unreadable(e) == Reach(defs, ToSet(Call(e)) \cup ToSet(e.result)) \cap opq # {}
-Skipped(e) == \/ e.skip # "" \/ e.m \notin DOMAIN defs \/ defs[e.m].fn # e.fn \/ Unreadable(e)
-              \/ HasMarker(Ref(e).ts) \/ HasMarker(Impl(e).ts) \/ ClassEv(Ref(e).ev) # {}
+\* (IF, not \/ : TLC explores the disjuncts of an action separately, without short-circuit)
+Skipped(e) == IF e.skip # "" THEN TRUE
+              ELSE IF e.m \notin DOMAIN defs THEN e.m \notin seen   \* a macro the trace never defined (predefined);
+                                                                   \* one that was #undef'd must not be replaced
+              ELSE IF defs[e.m].fn # e.fn THEN TRUE
+              ELSE IF Unreadable(e) THEN TRUE
+              ELSE IF HasMarker(Ref(e).ts) THEN TRUE
+              ELSE IF HasMarker(Impl(e).ts) THEN TRUE
+              ELSE ClassEv(Ref(e).ev) # {}
 
 TExpandSkip == /\ IsE(l, "Expand") /\ Skipped(Tr[l])
-               /\ l' = l + 1 /\ nskip' = nskip + 1 /\ UNCHANGED <<defs, pushStack, out, opq, ncmp>>
+               /\ l' = l + 1 /\ nskip' = nskip + 1 /\ UNCHANGED <<defs, pushStack, out, opq, seen, ncmp>>
 
-TExpand == /\ IsE(l, "Expand") /\ ~Skipped(Tr[l])
+TExpand == /\ IsE(l, "Expand") /\ ~Skipped(Tr[l]) /\ Tr[l].m \in DOMAIN defs
            /\ Texts(Ref(Tr[l]).ts) = Texts(Impl(Tr[l]).ts)
            /\ out' = Append(out, OutLine(defs, Ref(Tr[l])))
-           /\ l' = l + 1 /\ ncmp' = ncmp + 1 /\ UNCHANGED <<defs, pushStack, opq, nskip>>
+           /\ l' = l + 1 /\ ncmp' = ncmp + 1 /\ UNCHANGED <<defs, pushStack, opq, seen, nskip>>
 
 TForeign == /\ l <= N /\ Tr[l].e \notin {"Reset", "Trim", "Define", "Undef", "Push", "Pop", "Expand"}
             /\ l' = l + 1 /\ UNCHANGED <<defs, pushStack, out>> /\ Keep
